@@ -138,7 +138,11 @@ var TypeSyntaxWriter dsl.TypeSyntaxWriter[string] = func(self dsl.TypeSyntaxWrit
 				}
 			}
 
-			typeSyntax = fmt.Sprintf("%s[%s]", typeName, strings.Join(typeArguments, ", "))
+			if len(typeArguments) > 0 {
+				// none of the type parameters may appear in the Python type, e.g. when they are
+				// only used within arrays of arrays
+				typeSyntax = fmt.Sprintf("%s[%s]", typeName, strings.Join(typeArguments, ", "))
+			}
 		}
 
 		if nt, ok := t.(*dsl.NamedType); ok {
